@@ -319,7 +319,8 @@ class Session:
         try:
             ret = getattr(target, op["m"])(*args)
         except Exception as e:  # noqa: BLE001
-            ns.dead.add(op["obj"])
+            if not op.get("cont"):
+                ns.dead.add(op["obj"])  # else: the caller keeps using the object
             return {"r": "exc", **_exc_info(e, self.scratch)}
         res = {"r": "ok"}
         if ret is not None and ret is not target:
